@@ -408,7 +408,7 @@ def gen_fstring(rng, st, depth=2, avoid_newline=False):
             st['debug_eq'] = st.get('debug_eq', 0) + 1
         r = rng.random()
         if r < 0.18:
-            fld += ':' + rng.choice(['>10', '^5', '.3f', 'x', '<', '%Y-%m', 'cimport z', '>10', '^5', '.3f', 'x', '<', '08.3f', ' ', '+', "#x"])
+            fld += ':' + rng.choice(['>10', '^5', '.3f', 'x', '<', '%Y-%m', 'cimport z', '>10', '^5', '.3f', 'x', '<', '08.3f', ' ', '+', "#x", '\\N{BULLET}<5'])
             st['format_spec'] = st.get('format_spec', 0) + 1
         elif r < 0.30:
             fld += ':' + rng.choice(['>', '', '0', '.']) + '{' + gen_expr(rng, st, 0, True) + '}' + rng.choice(['', 'd', '.2f'])
